@@ -117,6 +117,7 @@ type FnEnc struct {
 	rawUsed  map[string]bool
 	fbits    map[string]string
 	heapTouch int
+	typeFacts map[string]bool
 	pendingLoads []SV // loaded interface values of which the assume_loads predicate is assumed
 	subOf    map[string][2]string // substring term -> (string it was cut from, offset)
 	gaddrs   map[string]bool
@@ -698,7 +699,7 @@ func (e *FnEnc) zeroValue(t types.Type) string {
 	}
 	if strings.HasPrefix(s, "(Array") {
 		arr := t.Underlying().(*types.Array)
-		return fmt.Sprintf("((as const %s) %s)", s, e.zeroValue(arr.Elem()))
+		return e.constArray(s, e.zeroValue(arr.Elem()))
 	}
 	bail("zero value of sort %s", s)
 	return ""
@@ -1368,4 +1369,15 @@ func (f *frame) rangeInv(li *loopInfo, phi *ssa.Phi, term string) string {
 		}
 	}
 	return ""
+}
+
+// constArray: the array with every element equal to val.  cvc5 accepts (as const ...) only
+// for literal values; when val mentions a declared constant (string literals are declared
+// constants) an unconstrained fresh array is used instead: the zeroed contents are then
+// unknown to the proof, which is weaker but sound.
+func (e *FnEnc) constArray(sort, val string) string {
+	if strings.Contains(val, "strlit!") {
+		return e.declare(e.fresh("zeroarr"), sort)
+	}
+	return fmt.Sprintf("((as const %s) %s)", sort, val)
 }
